@@ -10,7 +10,7 @@ META = dict(
                'the convnd argument helpers (input / weight / reduce / bias reshapes, kernel size, dilation spacing, padding widths) produce the shapes PyTorch semantics require, outside three known findings '
                '(batch extent dropped, grouped weight layout, dilation order). The composition of the stage formulas into floor((n+2p-d(k-1)-1)/s)+1 is a Lean lemma.',
     level_note='Element values (sums over windows, max/avg, bias, normalisations) are NOT verified. The float kernel of shape_pool2d is decided bit-precisely by SAT, which bounds the extents: quick tier 1..256 '
-               '(the property needs 1..7); measured: 4096 takes 1-2 min per axis and mode, 65536 > 10 min. Beyond 2^24 the float formula is wrong: n-k = 16777219, s = 2 gives 8388611 instead of 8388610 (float has 24 bits). '
+               '(the property needs 1..7); measured on the kernel alone: 4096 takes 1-2 min per axis and mode, 65536 > 10 min; the whole unit with bound 1024 takes 2 min, with 4096 > 5 min. Beyond 2^24 the float formula is wrong: n-k = 16777219, s = 2 gives 8388611 instead of 8388610 (float has 24 bits). '
                'Trusted: clang AST, cxx2c rendering, CBMC, C models of std::array; Lean 4 kernel for the composition lemma.',
     trusted_base=['clang 14 front end (AST of the instantiated templates)', 'engine/cxx2c.py (C++ AST -> C rendering)',
                   'cbmc 6.11.0 / goto-instrument --dfcc (contract instrumentation, SAT back end, IEEE-754 float model)',
